@@ -79,7 +79,9 @@ def scenario(exe, base, name, steps, valgrind):
         "  box anchor: [-0.9 pc, -0.9 pc, -0.9 pc]\n  box sides: [1.8 pc, 1.8 pc, 1.8 pc]\n  update interval: 0.001 Myr\n  random seed: 6\n"))
     res = []
     for a in steps:
-        rc, out = run_binary(exe, d, a, valgrind)
+        native = a[0] == "NATIVE"      # a leg that only prepares state (under valgrind one thread would do all the work of the leg)
+        a = a[1:] if native else a
+        rc, out = run_binary(exe, d, a, valgrind and not native)
         rep = [l for l in out.splitlines() if l.startswith("==") or "runtime error" in l or "ERROR: AddressSanitizer" in l or "Error" in l[:40]]
         res.append((a, rc, rep[:12]))
         if rc != 0:
@@ -92,7 +94,7 @@ def scenarios(thorough):
     S = {
         "hydro_1thread": [["--task-based-rhd", "--params", "hydro.param", "--threads", "1", "--dirty", "--number-of-steps", "2"]],
         "hydro_restart": [["--task-based-rhd", "--params", "hydro.param", "--threads", "1", "--dirty", "--number-of-steps", "1"],
-                          ["--task-based-rhd", "--params", "hydro.param", "--threads", "1", "--dirty", "--restart", ".", "--number-of-steps", "1"]],
+                          ["--task-based-rhd", "--params", "hydro.param", "--threads", "1", "--dirty", "--restart", ".", "--number-of-steps", "2"]],
         "rhd_radiation_liveoutput_2threads": [["--task-based-rhd", "--params", "rhd.param", "--threads", "2", "--dirty", "--number-of-steps", "2"]],
         "ionization_diffuse_continuous_2threads": [["--task-based", "--params", "ion.param", "--threads", "2", "--dirty"]],
         "ionization_dark_star_2threads": [["--task-based", "--params", "ion_dark_star.param", "--threads", "2", "--dirty"]],
@@ -103,6 +105,9 @@ def scenarios(thorough):
         # the photon scheduling state of restored subgrids (premature launch decisions) is only exercised when a run WITH radiation is restarted
         "rhd_radiation_restart": [["--task-based-rhd", "--params", "rhd.param", "--threads", "2", "--dirty", "--number-of-steps", "1"],
                                   ["--task-based-rhd", "--params", "rhd.param", "--threads", "2", "--dirty", "--restart", ".", "--number-of-steps", "2"]],
+        # a dump written by 4 threads continued with 1 thread (the statement quantifies over restart and over all thread counts)
+        "hydro_restart_with_fewer_threads": [["NATIVE", "--task-based-rhd", "--params", "hydro.param", "--threads", "4", "--dirty", "--number-of-steps", "1"],
+                                             ["--task-based-rhd", "--params", "hydro.param", "--threads", "1", "--dirty", "--restart", ".", "--number-of-steps", "2"]],
         "rhd_moving_sources_1thread": [["--task-based-rhd", "--params", "rhd_moving.param", "--threads", "1", "--dirty"]],
     }
     if thorough:
